@@ -451,11 +451,14 @@ Definition post (h : heap) (ps : list ptr) (fp : list nat) (h' : heap) (ps' : li
   (forall a, In a fp' -> In a fp \/ length h <= a) /\
   alloc_wf ps'.
 
+Section Sound.
+Variable cfg : config.
+
 Definition sound_at (p : path) : Prop := forall h ps v j fp n jn,
   alloc_wf ps -> orep h ps j v fp -> NoDup fp -> orep h ps jn n [] ->
   match Path.update j p jn with
-  | None => update as_is h (Some ps) v p n = None
-  | Some j' => exists h' ps' u fp', update as_is h (Some ps) v p n = Some (h', Some ps', u) /\
+  | None => update cfg h (Some ps) v p n = None
+  | Some j' => exists h' ps' u fp', update cfg h (Some ps) v p n = Some (h', Some ps', u) /\
                  orep h' ps' j' u fp' /\ NoDup fp' /\ post h ps fp h' ps' fp'
   end.
 
@@ -723,10 +726,10 @@ Proof.
   assert (Hcont : forall jm kvs fps jx x,
     obj_node h ps jm v kvs fps fp -> orep h ps jx x (lookupf k kvs fps) ->
     match Path.update jx r jn with
-    | None => match update as_is h (Some ps) x r n with
+    | None => match update cfg h (Some ps) x r n with
               | None => None | Some (h1, A1, u) => obj_write h1 A1 v k u end = None
     | Some ju => exists h' ps' w fp',
-        match update as_is h (Some ps) x r n with
+        match update cfg h (Some ps) x r n with
         | None => None | Some (h1, A1, u) => obj_write h1 A1 v k u end = Some (h', Some ps', w) /\
         orep h' ps' (JObj (insert k ju jm)) w fp' /\ NoDup fp' /\ post h ps fp h' ps' fp'
     end).
@@ -1113,10 +1116,10 @@ Proof.
   assert (Hcont : forall js E fps k jx x,
     arr_node h ps js v E fps fp -> orep h ps jx x (nth k fps []) ->
     match Path.update jx r jn with
-    | None => match update as_is h (Some ps) x r n with
+    | None => match update cfg h (Some ps) x r n with
               | None => None | Some (h1, A1, u) => arr_write h1 A1 v k u end = None
     | Some ju => exists h' ps' w fp',
-        match update as_is h (Some ps) x r n with
+        match update cfg h (Some ps) x r n with
         | None => None | Some (h1, A1, u) => arr_write h1 A1 v k u end = Some (h', Some ps', w) /\
         orep h' ps' (JArr (set_nth js k ju)) w fp' /\ NoDup fp' /\ post h ps fp h' ps' fp'
     end).
@@ -1151,22 +1154,22 @@ Proof.
          let j0 := clamp i (-1) len in
          if (j0 <? 0)%Z then if h_is_empty n then Some (h, Some ps, norm_nil v) else None
          else if (j0 <? len)%Z then
-           match update as_is h (Some ps) (nth (Z.to_nat j0) (elems h v) HNull) r n with
+           match update cfg h (Some ps) (nth (Z.to_nat j0) (elems h v) HNull) r n with
            | None => None | Some (h1, A1, u) => arr_write h1 A1 v (Z.to_nat j0) u end
          else if h_is_empty n then Some (h, Some ps, norm_nil v)
          else if (max_index <=? i)%Z then None
-         else match update as_is h (Some ps) HNull r n with
+         else match update cfg h (Some ps) HNull r n with
               | None => None | Some (h1, A1, u) => arr_write h1 A1 v (Z.to_nat i) u end) = None
     | Some j' => exists h' ps' u fp',
         (let len := Z.of_nat (hlen v) in
          let j0 := clamp i (-1) len in
          if (j0 <? 0)%Z then if h_is_empty n then Some (h, Some ps, norm_nil v) else None
          else if (j0 <? len)%Z then
-           match update as_is h (Some ps) (nth (Z.to_nat j0) (elems h v) HNull) r n with
+           match update cfg h (Some ps) (nth (Z.to_nat j0) (elems h v) HNull) r n with
            | None => None | Some (h1, A1, u) => arr_write h1 A1 v (Z.to_nat j0) u end
          else if h_is_empty n then Some (h, Some ps, norm_nil v)
          else if (max_index <=? i)%Z then None
-         else match update as_is h (Some ps) HNull r n with
+         else match update cfg h (Some ps) HNull r n with
               | None => None | Some (h1, A1, u) => arr_write h1 A1 v (Z.to_nat i) u end) = Some (h', Some ps', u) /\
         orep h' ps' j' u fp' /\ NoDup fp' /\ post h ps fp h' ps' fp'
     end).
@@ -1214,3 +1217,4 @@ Proof.
   - apply sound_key. auto.
   - apply sound_idx. auto.
 Qed.
+End Sound.
